@@ -234,7 +234,7 @@ func (r *runner) parent() {
 	n := c.N(28, 300)
 	for i := 0; i < n; i++ {
 		sub := rand.New(rand.NewPCG(c.Seed, uint64(i)+1000003))
-		scs = append(scs, genScenario(sub, i, func(k string) { c.Dist(k) }))
+		scs = append(scs, genScenario(sub, c.Seed, i, func(k string) { c.Dist(k) }))
 	}
 	var wg sync.WaitGroup
 	wg.Add(1)
